@@ -154,7 +154,7 @@ func followsPolyline(rp, ip Path, tol float64) bool {
 func judgeC09(c *C09Case, cx *Ctx) *Violation {
 	c2.VerifStartRecording()
 	closed, open, ok := runOpen(c, true)
-	evs := c2.VerifStopRecording()
+	evs := stopRecording()
 	if !ok {
 		return violf("ExecuteOC returned false")
 	}
